@@ -121,3 +121,19 @@ Theorem c06_script_paths_well_formed_with_update_and_merge_partial : forall nois
       (forall n, In n (removelast path) -> CompDefs.owner_in n (source_tables g ++ intermediate_tables g) = true).
 Proof. exact script_paths_well_formed_on_core_xd. Qed.
 Print Assumptions c06_script_paths_well_formed_with_update_and_merge_partial.
+
+(** the same without the [edges_in_rw] guard (proved in general: Tree/ScriptWellFormedDml2.v edges_in_rw_ok) *)
+From SV Require Import Tree.LemmaADmlDefs Tree.LemmaBDml Tree.ScriptExactDml Tree.ScriptWellFormedDml2.
+Theorem c06_script_paths_well_formed_with_update_and_merge : forall noise e xs,
+  noise_ok noise = true -> env_ok e = true ->
+  Forall (fun x => match x with
+                   | SS s => (stmt_ok_x s = true /\ colshape s = true /\ resolved_x s = true) \/ is_nodata s = true
+                   | SD d => dml_cols_ok d = true /\ dml_resolved d = true /\ dml_ok d = true
+                   end) xs ->
+  exists g, script_graph e false [] (map (r_sstmt noise) xs) = Ok g /\
+    forall b path, In path (column_lineage g b false) ->
+      2 <= List.length path /\
+      (forall n, In n (tl path) -> CompDefs.owner_in n (target_tables g ++ intermediate_tables g) = true) /\
+      (forall n, In n (removelast path) -> CompDefs.owner_in n (source_tables g ++ intermediate_tables g) = true).
+Proof. exact script_paths_well_formed_on_core_xd2. Qed.
+Print Assumptions c06_script_paths_well_formed_with_update_and_merge.
